@@ -192,3 +192,29 @@ func VerifHarness_C05_worker_count_independence() {
 	vAssert(bytes.Equal(ca.ReceiptsHash, cb.ReceiptsHash), "receipts-hash-independent-of-worker-count")
 	vAssert(bytes.Equal(ca.AppHash, cb.AppHash), "app-hash-independent-of-worker-count")
 }
+
+// What a block yields must not depend on Go's randomised map iteration order: the same block with
+// two key-value transactions on distinct keys is executed by two fresh replicas. Under the engine
+// every map range inside the application's methods starts at an arbitrary entry (explored choice,
+// independently per replica); natively the comparison is repeated, the runtime randomises by itself.
+func VerifHarness_C05_map_order_independence() {
+	vC09App()
+	mk := func() *gtypes.Block {
+		return vC05Block(1, [][]byte{vC05KVTxSig(0, 1, 7, false), vC05KVTxSig(1, 2, 9, false), vC05KVTxSig(2, 3, 5, false)})
+	}
+	reps := 1
+	if !vSymbolic() {
+		reps = 24
+	}
+	A := vC05Start(vC05NewDisk())
+	ra, ca := vC05Run(A, mk())
+	vAssert(len(ra.ValidTxs) == 3, "block-executes")
+	for i := 0; i < reps; i++ {
+		B := vC05Start(vC05NewDisk())
+		rb, cb := vC05Run(B, mk())
+		vAssert(len(rb.ValidTxs) == len(ra.ValidTxs) && len(rb.InvalidTxs) == len(ra.InvalidTxs), "same-valid-invalid-split-for-any-map-order")
+		vAssert(bytes.Equal(ca.ReceiptsHash, cb.ReceiptsHash), "receipts-hash-independent-of-map-iteration-order")
+		vAssert(bytes.Equal(ca.AppHash, cb.AppHash), "app-hash-independent-of-map-iteration-order")
+	}
+	vReach("replicas-compared")
+}
